@@ -211,10 +211,79 @@ static void unique() {
   }
 }
 
+// fptrs <plain.in> <module.in> <nptr>: a plain database is requested first, then a module with a table of nptr function pointers;
+// interrogate_wrapper_pointer / has_pointer are swept over every index incl. the extremes: inside the module's range the table entry,
+// everywhere else the neutral value
+static void dummy0() {}
+static void dummy1() {}
+static void dummy2() {}
+static int fptrs_mode(int argc, char **argv) {
+  if (argc < 5) return 2;
+  int n = atoi(argv[4]);
+  // the table sits in the middle of a poisoned arena: a read in front of or behind it yields a recognisable non-null value
+  static void *arena[4096];
+  for (int i = 0; i < 4096; ++i) arena[i] = (void *)&dummy2;
+  void **table = arena + 2048;
+  for (int i = 0; i < n; ++i) table[i] = (i % 2) ? (void *)&dummy1 : (void *)&dummy0;
+  if (strcmp(argv[2], "-") != 0) interrogate_request_database(argv[2]);
+  static InterrogateModuleDef def;
+  memset(&def, 0, sizeof(def));
+  def.library_name = "";
+  def.library_hash_name = "";
+  def.module_name = "";
+  def.database_filename = strdup(argv[3]);
+  def.fptrs = table;
+  def.num_fptrs = n;
+  def.first_index = 1;
+  def.next_index = n + 1;
+  interrogate_request_module(&def);
+  interrogate_number_of_functions();     // forces the load, which assigns the module its index range
+  int first = def.first_index, next = def.next_index;
+  cout << "range " << first << " " << next << "\n";
+  vector<int> idx;
+  for (int i = -6; i <= next + 6; ++i) idx.push_back(i);
+  int ext[] = {INT_MIN, INT_MIN / 2, INT_MIN + 1, -100000, INT_MAX, INT_MAX / 2, 100000};
+  for (int e : ext) idx.push_back(e);
+  int badn = 0;
+  for (int i : idx) {
+    void *want = nullptr;
+    if (i >= first && i < first + n) want = table[i - first];
+    bool has = interrogate_wrapper_has_pointer(i);
+    void *got = interrogate_wrapper_pointer(i);
+    if (got != want || has != (want != nullptr)) {
+      cout << "BAD fptr index " << i << " has_pointer " << has << " pointer " << (got == nullptr ? "null" : (got == want ? "right" : "stray")) << " expected " << (want ? "entry" : "null") << "\n";
+      ++badn;
+    }
+    ++calls;
+  }
+  cout << "DONE " << calls << "\n";
+  return badn ? 1 : 0;
+}
+
+// firstcount <k> <files>: the k-th counting function is the FIRST query after the request; its answer must equal the answer after everything is loaded
+typedef int (*count_fn)();
+static int firstcount_mode(int argc, char **argv) {
+  static count_fn fns[] = { interrogate_number_of_manifests, interrogate_number_of_globals, interrogate_number_of_global_types, interrogate_number_of_types,
+                            interrogate_number_of_global_functions, interrogate_number_of_functions };
+  static const char *names[] = { "interrogate_number_of_manifests", "interrogate_number_of_globals", "interrogate_number_of_global_types", "interrogate_number_of_types",
+                                 "interrogate_number_of_global_functions", "interrogate_number_of_functions" };
+  int k = atoi(argv[2]);
+  if (k < 0 || k >= 6) return 2;
+  for (int i = 3; i < argc; ++i) request(argv[i]);
+  int first = fns[k]();
+  for (int j = 0; j < 6; ++j) fns[j]();
+  interrogate_get_type(0);
+  int later = fns[k]();
+  cout << names[k] << " first " << first << " later " << later << "\n";
+  return first == later ? 0 : 1;
+}
+
 int main(int argc, char **argv) {
   if (argc < 2) return 2;
   string mode = argv[1];
   if (mode == "unique") { unique(); return 0; }
+  if (mode == "fptrs") return fptrs_mode(argc, argv);
+  if (mode == "firstcount") return firstcount_mode(argc, argv);
   for (int i = 2; i < argc; ++i) request(argv[i]);
   if (mode == "sweep") sweep();
   else if (mode == "names") names();
